@@ -242,6 +242,18 @@ Theorem C13_shape : forall (Phi PhiInv pow15 : Q -> Q) yshape rows hats al m sh 
 Proof. exact bootstrap_ci_shape. Qed.
 Print Assumptions C13_shape.
 
+(* integer replicates with an integer estimate: the bca branch raises (np.divide into an integer buffer), while the
+   same values as floats give limits.  Faithful model => "agreement with the documented formula is claimed
+   everywhere" is refuted for integer-typed input (e.g. count-valued metrics) with method bca. *)
+Theorem C13_int_bca_refuted : forall (Phi PhiInv pow15 : Q -> Q),
+  (forall x, 0 <= Phi x /\ Phi x <= 1) ->
+  exists rows hs alpha,
+    bootstrap_ci_dt Phi PhiInv pow15 DInt [] rows (Some hs) (AScalar alpha) MBca = Err /\
+    (exists d, bootstrap_ci_dt Phi PhiInv pow15 DFloat [] rows (Some hs) (AScalar alpha) MBca = Ok ([2%nat], d)) /\
+    (exists d, bootstrap_ci_dt Phi PhiInv pow15 DInt [] rows (Some hs) (AScalar alpha) MBc = Ok ([2%nat], d)).
+Proof. exact int_bca_refuted. Qed.
+Print Assumptions C13_int_bca_refuted.
+
 (* ---------------- non-vacuity ---------------- *)
 (* a concrete oracle instance satisfying every hypothesis used above (piecewise-linear cdf, linear ppf,
    pow15 = 0: the homogeneity hypothesis has no other computable rational instance) *)
